@@ -110,13 +110,14 @@ Section Errors.
       try (right; cbn [raised]; exact I);
       try assumption;
       try match goal with Hn : node_kwargs P _ _ = None |- _ => exfalso; exact (node_kwargs_some _ _ Hn) end;
-      try match goal with Hq : task_errors _ = ?e :: _ |- legit ?e => apply Hte; [exact Hto|rewrite Hq; left; reflexivity] end;
+      try match goal with Hq : task_errors _ = ?e :: ?r |- legit (pick_error _ ?e ?r) => apply Hte; [exact Hto|rewrite Hq; apply pick_error_in] end;
       try match goal with Hd : retry_decide _ ?oc _ = _ |- legit (XNode _ _ _) =>
             right; cbn [raised]; eexists; apply (decide_raise _ oc _ _); eauto end;
       try (apply Fo2; reflexivity).
     all: try (apply Fo1; cbn; auto; fail).
     all: try (apply So1; cbn; auto; fail).
     all: try (apply Hte; [exact Hto|left; reflexivity]).
+    all: try (apply Hte; [exact Hto|apply pick_error_in]).
     all: try (right; cbn; eexists; eapply decide_raise; eauto; fail).
     all: try match goal with Hq : dep_error _ _ _ _ = Some _ |- _ => rewrite (plain_dep_error P _ _ _ Hst') in Hq; discriminate Hq end.
   Qed.
